@@ -17,6 +17,7 @@ import (
 	"path/filepath"
 	"regexp"
 	"runtime/debug"
+	"runtime/pprof"
 	"sort"
 	"strconv"
 	"strings"
@@ -166,6 +167,18 @@ func Main(prop, level string, layers ...Layer) {
 		if l != "" {
 			only[l] = true
 		}
+	}
+	if pp := os.Getenv("VERIF_HEAPPROF"); pp != "" {
+		// debugging aid: a heap profile every 45 s (the monitors hold whole clusters/DBs)
+		go func() {
+			for i := 0; ; i++ {
+				time.Sleep(45 * time.Second)
+				if f, err := os.Create(fmt.Sprintf("%s.%d", pp, i)); err == nil {
+					_ = pprof.WriteHeapProfile(f)
+					_ = f.Close()
+				}
+			}
+		}()
 	}
 	func() {
 		defer func() {
